@@ -10,7 +10,7 @@ func init() {
 		ID:    "C03",
 		Level: "exploration",
 		Rule: "scenario(i) as in C01 with backend-behaviour variety (errors before/after k messages, trailers-only, bare HTTP errors, per-frame flags, compressed end frames, " +
-			"declared Content-Length, empty responses, odd write segmentation) plus transcoder-generated errors, including a stratum (12%) with a tiny message buffer limit and a handler writing in pieces so that the limit trips in the middle of a body; oracle = strict response validator of the client's own wire form " +
+			"declared Content-Length, Trailer declarations also on trailers-only responses, status keys next to a successful status, empty responses, odd write segmentation) plus transcoder-generated errors, including a stratum (12%) with a tiny message buffer limit and a handler writing in pieces so that the limit trips in the middle of a body; oracle = strict response validator of the client's own wire form " +
 			"over the recorder log (status, content-type, envelopes, declared compression vs bytes, Content-Length, exactly one terminal disposition, nothing after it). " +
 			"non-trivial = protocol pair differs or the script is not a plain success; distinct by (cell, script shape, outcome kind)",
 		Assume: []string{"strict validators in client.go written from the protocol documents", "Recorder reproduces net/http's header-snapshot, trailer and Content-Length rules"},
